@@ -128,9 +128,3 @@ Definition validators_ok (standalone : bool) (tbl : list vmethod) : bool :=
                     | (m, a, RFree) => true
                     | (m, a, _) => existsb (fun vm => String.eqb (m_name vm) m && existsb (String.eqb a) (m_names vm)) tbl
                     end) required.
-
-Definition shapes_ok : bool :=
-  shape_is_dot_or_dotdot && shape_is_safe_path_component && shape_validate_path_component &&
-  shape_pt_validate_path_component && shape_is_safe_inode && shape_open_file_restricted && shape_create_file_excl &&
-  shape_reopen_fd_through_proc && shape_lookup_dotdot_rewrite && shape_lookup_uses_open_file_and_handle &&
-  shape_path_fd_flags_o_path && shape_open_inode_gate.
